@@ -12,7 +12,10 @@
 //! operands : e<i> element · a AttributeOperand · x undecodable extension object ·
 //!            s SimpleAttributeOperand that resolves to nothing · s0 the same without browse path ·
 //!            n literal NULL · <type>:<value> numeric/Boolean literal (as in C06) ·
-//!            str:s<hex> / str:- String literal (ASCII) · nid:<type> / nid:bad NodeId of a data type
+//!            str:s<hex> / str:- String literal (ASCII) · nid:<type> / nid:bad NodeId of a data type ·
+//!            sv:sev / sv:src SimpleAttributeOperand that resolves to the Severity (UInt16 7) / SourceName
+//!            (String "abc") property of the event the clause is evaluated against
+//!       evalevent                       event_filter::evaluate (the event passes / does not pass) → `ok 1|0`
 use super::c06::{self, T, V};
 use crate::common::*;
 use opcua::server::events::event_filter;
@@ -97,6 +100,8 @@ enum Opd {
     Attr,
     Undecodable,
     Simple(bool),
+    /// SimpleAttributeOperand with a browse path that exists below the event (0 Severity, 1 SourceName)
+    Field(u8),
     Lit(Lit),
 }
 
@@ -136,6 +141,8 @@ fn parse_operand(tok: &str) -> Option<Opd> {
         "s" => return Some(Opd::Simple(true)),
         "s0" => return Some(Opd::Simple(false)),
         "n" => return Some(Opd::Lit(Lit::Null)),
+        "sv:sev" => return Some(Opd::Field(0)),
+        "sv:src" => return Some(Opd::Field(1)),
         _ => {}
     }
     if let Some(i) = tok.strip_prefix('e') {
@@ -167,6 +174,8 @@ fn show_operand(o: &Opd) -> String {
         Opd::Undecodable => "x".into(),
         Opd::Simple(true) => "s".into(),
         Opd::Simple(false) => "s0".into(),
+        Opd::Field(0) => "sv:sev".into(),
+        Opd::Field(_) => "sv:src".into(),
         Opd::Lit(Lit::Null) => "n".into(),
         Opd::Lit(Lit::Num(t, v)) => format!("{}:{}", t.name(), c06::show_op_val(*v)),
         Opd::Lit(Lit::Str(None)) => "str:-".into(),
@@ -226,8 +235,47 @@ fn real_operand(o: &Opd) -> ExtensionObject {
             index_range: UAString::null(),
         })
         .into(),
+        Opd::Field(k) => Operand::simple_attribute(
+            ObjectTypeId::BaseEventType,
+            if *k == 0 { "Severity" } else { "SourceName" },
+            AttributeId::Value,
+            UAString::null(),
+        )
+        .into(),
         Opd::Lit(l) => Operand::literal(lit_variant(l)).into(),
     }
+}
+
+/// One address space (read only) that holds one raised BaseEventType event: source node = the
+/// Server object, Severity 7, SourceName "abc".
+struct EventSpace {
+    address_space: opcua::server::address_space::AddressSpace,
+    event_id: NodeId,
+}
+unsafe impl Sync for EventSpace {}
+unsafe impl Send for EventSpace {}
+
+fn event_space() -> &'static EventSpace {
+    use opcua::server::events::event::{BaseEventType, Event};
+    static S: std::sync::OnceLock<EventSpace> = std::sync::OnceLock::new();
+    S.get_or_init(|| {
+        let mut address_space = opcua::server::address_space::AddressSpace::new();
+        let ns = address_space.register_namespace("urn:verif:c39").unwrap();
+        let event_id = NodeId::new(ns, 1000u32);
+        let mut event = BaseEventType::new(
+            &event_id,
+            ObjectTypeId::BaseEventType,
+            "VerifEvent",
+            "",
+            NodeId::objects_folder_id(),
+            DateTime::now(),
+        )
+        .source_node(ObjectId::Server)
+        .source_name("abc")
+        .severity(7);
+        event.raise(&mut address_space).expect("event raised");
+        EventSpace { address_space, event_id }
+    })
 }
 
 fn real_filter(elems: &[Elem]) -> ContentFilter {
@@ -520,6 +568,8 @@ impl<'a> RefCtx<'a> {
             }
             Opd::Attr | Opd::Undecodable => Err(RefErr::Malformed),
             Opd::Simple(_) => Ok(RV::Null),
+            Opd::Field(0) => Ok(RV::Int(T::U16, 7)),
+            Opd::Field(_) => Ok(RV::Str("abc".to_string())),
             Opd::Lit(Lit::Null) => Ok(RV::Null),
             Opd::Lit(Lit::Num(t, v)) => Ok(match v {
                 V::I(x) => {
@@ -999,6 +1049,8 @@ fn gen_case(rng: &mut Rng, out: &mut Vec<String>) {
                 }
             } else if rng.chance(1, 25) {
                 Opd::Simple(rng.chance(1, 2))
+            } else if rng.chance(1, 20) {
+                Opd::Field(rng.below(2) as u8)
             } else {
                 gen_literal(rng, want)
             };
@@ -1012,6 +1064,7 @@ fn gen_case(rng: &mut Rng, out: &mut Vec<String>) {
     }
     out.push("validate".to_string());
     out.push("eval".to_string());
+    out.push("evalevent".to_string());
 }
 
 fn hexs(x: &str) -> String {
@@ -1026,6 +1079,7 @@ fn sweep_cases() -> Vec<Vec<String>> {
         c.extend(elems.iter().map(|e| format!("elem {}", e)));
         c.push("validate".to_string());
         c.push("eval".to_string());
+        c.push("evalevent".to_string());
         cases.push(c);
     };
     // representative literals of every value class (and of every conversion outcome)
@@ -1052,6 +1106,8 @@ fn sweep_cases() -> Vec<Vec<String>> {
         "nid:i32".into(),
         "nid:bad".into(),
         "s".into(),
+        "sv:sev".into(),
+        "sv:src".into(),
     ];
     // (a) operand counts: None, empty, below / at / above the minimum, for every operator
     for (op, name, _) in OPS.iter() {
@@ -1100,6 +1156,33 @@ fn sweep_cases() -> Vec<Vec<String>> {
                     clause(&[format!("{} {} {}", op, a, b)]);
                 }
             }
+        }
+    }
+    // (c2) operator::convert over every ordered pair of the 11 numeric types: the extremes of each
+    //      side against 1 (the conversion towards the higher precedence fails or not) and 1 against 1
+    for st in c06::ALL {
+        for dt in c06::ALL {
+            let ext = |t: T| -> (V, V, V) {
+                match t {
+                    T::F32 => (V::F32(f32::MIN), V::F32(f32::MAX), V::F32(1.0)),
+                    T::F64 => (V::F64(f64::MIN), V::F64(f64::MAX), V::F64(1.0)),
+                    _ => {
+                        let (lo, hi) = t.range();
+                        (V::I(lo), V::I(hi), V::I(1))
+                    }
+                }
+            };
+            let (slo, shi, sone) = ext(st);
+            let (dlo, dhi, done) = ext(dt);
+            let lit = |t: T, v: V| format!("{}:{}", t.name(), c06::show_op_val(v));
+            for (a, b) in [(shi, done), (slo, done), (sone, done), (sone, dhi), (sone, dlo)] {
+                clause(&[format!("eq {} {}", lit(st, a), lit(dt, b))]);
+            }
+            clause(&[format!("lt {} {}", lit(st, slo), lit(dt, dhi))]);
+            // the direction of the conversion decides these two (1 < MAX, MAX > 1)
+            clause(&[format!("lt {} {}", lit(st, sone), lit(dt, dhi))]);
+            clause(&[format!("gt {} {}", lit(st, shi), lit(dt, done))]);
+            clause(&[format!("bitand {} {}", lit(st, shi), lit(dt, dhi))]);
         }
     }
     // (d) operand kinds in a unary and in both positions of a binary operator
@@ -1183,6 +1266,7 @@ fn sweep_cases() -> Vec<Vec<String>> {
             cases.push(c);
         }
     }
+    cases.push(vec!["reset".into(), "nullclause".into(), "validate".into(), "eval".into(), "evalevent".into()]);
     cases
 }
 
@@ -1262,8 +1346,7 @@ impl Runner for R {
                     select_clauses: None,
                     where_clause: real_filter(&self.elems),
                 };
-                let address_space = crate::fixtures::server().address_space.read();
-                match event_filter::validate(&filter, &address_space) {
+                match event_filter::validate(&filter, &event_space().address_space) {
                     Ok(r) => {
                         let codes: Vec<String> = r
                             .where_clause_result
@@ -1279,9 +1362,9 @@ impl Runner for R {
             }
             ["eval"] => {
                 let filter = real_filter(&self.elems);
-                let object_id = NodeId::root_folder_id();
-                let address_space = crate::fixtures::server().address_space.read();
-                let res = hook::evaluate_where_clause(&object_id, &filter, &address_space);
+                // the clause is evaluated against the raised event (as event_filter::evaluate does)
+                let es = event_space();
+                let res = hook::evaluate_where_clause(&es.event_id, &filter, &es.address_space);
                 let line = match &res {
                     Ok(v) => format!("ok {}", show_variant(v)),
                     Err(e) => format!("err {}", e),
@@ -1325,6 +1408,74 @@ impl Runner for R {
                     ),
                 };
                 (line, verdict)
+            }
+            ["nullclause"] => {
+                // a ContentFilter without an element array (`elements: None`)
+                let es = event_space();
+                let filter = ContentFilter { elements: None };
+                let res = hook::evaluate_where_clause(&es.event_id, &filter, &es.address_space);
+                let val = event_filter::validate(
+                    &EventFilter {
+                        select_clauses: None,
+                        where_clause: ContentFilter { elements: None },
+                    },
+                    &es.address_space,
+                );
+                let r = match &res {
+                    Ok(v) => format!("ok {}", show_variant(v)),
+                    Err(e) => format!("err {}", e),
+                };
+                let v = match val {
+                    Ok(r) => match r.where_clause_result.element_results {
+                        None => "none".to_string(),
+                        Some(v) => format!("{}", v.len()),
+                    },
+                    Err(e) => format!("err:{}", e),
+                };
+                let verdict = if res == Ok(Variant::Boolean(true)) {
+                    Verdict::Ok
+                } else {
+                    Verdict::fail("operator_semantics", "null-clause", "a clause without elements must be TRUE")
+                };
+                (format!("{} {}", r, v), verdict)
+            }
+            ["evalevent"] => {
+                // the public entry point: events of the Server object that pass the where clause
+                let es = event_space();
+                let filter = EventFilter {
+                    select_clauses: None,
+                    where_clause: real_filter(&self.elems),
+                };
+                let epoch = chrono::DateTime::<chrono::Utc>::from_timestamp(0, 0).unwrap();
+                let source: NodeId = ObjectId::Server.into();
+                let got = event_filter::evaluate(&source, &filter, &es.address_space, &epoch, 1);
+                let passed = got.map(|v| v.len()).unwrap_or(0);
+                // oracle: the event passes exactly when the where clause is TRUE
+                let mut ctx = RefCtx {
+                    elems: &self.elems,
+                    tags: Vec::new(),
+                };
+                let expected = if self.elems.is_empty() {
+                    Ok(RV::Bool(true))
+                } else {
+                    let mut path = vec![0u32];
+                    ctx.eval(&self.elems[0], &mut path)
+                };
+                let class = clause_class(&self.elems, &ctx.tags);
+                let verdict = match expected {
+                    Ok(RV::Unknown) => Verdict::Ok,
+                    Ok(v) => {
+                        let want = (v == RV::Bool(true)) as usize;
+                        if want == passed {
+                            Verdict::Ok
+                        } else {
+                            Verdict::fail("operator_semantics", &class, format!("event passed {} want {}", passed, want))
+                        }
+                    }
+                    // not a well-formed clause: only "no panic" is required (as for `eval`)
+                    Err(_) => Verdict::Ok,
+                };
+                (format!("ok {}", passed), verdict)
             }
             ["likere", p] => {
                 let p = match parse_str(p) {
